@@ -494,6 +494,10 @@ impl<T: Types> RaftLog<T> {
         &mut self,
         rec: &WALRecord<T>,
     ) -> Result<Segment, io::Error> {
+        // Validate before writing to the WAL: a rejected record must leave no
+        // trace, neither in the WAL nor in the state machine.
+        self.state_machine.log_state.validate(rec)?;
+
         WAL::append(&mut self.wal, rec)?;
         StateMachine::apply(
             &mut self.state_machine,
